@@ -105,6 +105,7 @@ func checkWalkComplete(c *core.Ctx, l *core.Ledger) {
 		}
 		// visit calls
 		got := map[string]int{}
+		viaHelper := map[string]bool{}
 		var why []string
 		cyc := core.CyclicBlocks(f)
 		core.Instrs(f, func(in ssa.Instruction) {
@@ -113,6 +114,34 @@ func checkWalkComplete(c *core.Ctx, l *core.Ledger) {
 				return
 			}
 			cal := call.Common().StaticCallee()
+			if cal != nil && !c.Named(cal, "visit") && core.InRepo(cal) && cal.Pkg == f.Pkg {
+				// a helper that visits every element of the slice it is given (visitAll(ss, xs)): counts as the loop it contains
+				if vi, si, xi, ok := visitAllHelper(c, cal); ok {
+					args := call.Common().Args
+					if sp, isP := args[si].(*ssa.Parameter); !isP || sp != f.Params[1] {
+						why = append(why, "children are visited with a stack other than the one received: "+core.Sym(args[si]))
+					}
+					if vp := core.Sym(args[vi]); vp != "$2" {
+						why = append(why, "children are visited with a different visitor: "+vp)
+					}
+					s := core.Sym(args[xi])
+					matched := false
+					for _, w := range want {
+						if w.slice && s == "$0."+w.name {
+							matched = true
+							got[w.name]++
+							viaHelper[w.name] = true
+							if cyc[in.Block()] {
+								why = append(why, "field "+w.name+" is visited inside a loop (more than once)")
+							}
+						}
+					}
+					if !matched {
+						why = append(why, "visits something that is not a Node-typed field of the receiver: "+s)
+					}
+				}
+				return
+			}
 			if cal == nil || !c.Named(cal, "visit") || recvNamed(cal) != "visitor" {
 				return
 			}
@@ -161,7 +190,7 @@ func checkWalkComplete(c *core.Ctx, l *core.Ledger) {
 		}
 		// slices: the loop covers the whole slice (range from 0 to len)
 		for _, w := range want {
-			if w.slice && got[w.name] == 1 && !fullRange(f, "$0."+w.name) {
+			if w.slice && got[w.name] == 1 && !viaHelper[w.name] && !fullRange(f, "$0."+w.name) {
 				why = append(why, "the loop over "+w.name+" does not cover the whole slice")
 			}
 		}
@@ -295,6 +324,63 @@ func checkWalkComplete(c *core.Ctx, l *core.Ledger) {
 }
 
 // fullRange: f has a loop over the slice `sym` from index 0 to len(sym).
+// visitAllHelper: h visits every element of one slice parameter exactly once
+// (a full range loop with one visit call on the element, the received stack and
+// the received visitor) and does nothing else with the visitor. Returns the
+// argument positions of visitor, stack and slice.
+func visitAllHelper(c *core.Ctx, h *ssa.Function) (vi, si, xi int, ok bool) {
+	if len(h.Blocks) == 0 {
+		return 0, 0, 0, false
+	}
+	var visits []ssa.CallInstruction
+	other := false
+	core.Instrs(h, func(in ssa.Instruction) {
+		call, isC := in.(ssa.CallInstruction)
+		if !isC {
+			return
+		}
+		if _, isB := call.Common().Value.(*ssa.Builtin); isB {
+			return
+		}
+		cal := call.Common().StaticCallee()
+		if cal != nil && c.Named(cal, "visit") && recvNamed(cal) == "visitor" {
+			visits = append(visits, call)
+		} else {
+			other = true
+		}
+	})
+	if len(visits) != 1 || other {
+		return 0, 0, 0, false
+	}
+	args := visits[0].Common().Args
+	if len(args) != 3 || !core.CyclicBlocks(h)[visits[0].Block()] {
+		return 0, 0, 0, false
+	}
+	idx := func(v ssa.Value) int {
+		for i, p := range h.Params {
+			if ssa.Value(p) == v {
+				return i
+			}
+		}
+		return -1
+	}
+	vi, si = idx(args[0]), idx(args[1])
+	if vi < 0 || si < 0 {
+		return 0, 0, 0, false
+	}
+	elem := strings.TrimPrefix(core.Sym(stripIface(args[2])), "&")
+	xi = -1
+	for i, p := range h.Params {
+		if _, isSl := p.Type().Underlying().(*types.Slice); isSl && strings.HasPrefix(elem, fmt.Sprintf("$%d[", i)) && fullRange(h, fmt.Sprintf("$%d", i)) {
+			xi = i
+		}
+	}
+	if xi < 0 {
+		return 0, 0, 0, false
+	}
+	return vi, si, xi, true
+}
+
 func fullRange(f *ssa.Function, sym string) bool {
 	ok := false
 	core.Instrs(f, func(in ssa.Instruction) {
@@ -482,6 +568,37 @@ func forwardsErrorList(c *core.Ctx, f *ssa.Function) string {
 			}
 		}
 	})
+	if calls == 0 {
+		// pure delegation: every return hands on both results of one call to another function of the package,
+		// which then carries the obligation
+		var target *ssa.Function
+		pure := true
+		core.Instrs(f, func(in ssa.Instruction) {
+			r, ok := in.(*ssa.Return)
+			if !ok {
+				return
+			}
+			if len(r.Results) != 2 {
+				pure = false
+				return
+			}
+			e0, ok0 := r.Results[0].(*ssa.Extract)
+			e1, ok1 := r.Results[1].(*ssa.Extract)
+			if !ok0 || !ok1 || e0.Tuple != e1.Tuple || e0.Index != 0 || e1.Index != 1 {
+				pure = false
+				return
+			}
+			call, isC := e0.Tuple.(*ssa.Call)
+			if !isC || call.Call.StaticCallee() == nil || !core.InRepo(call.Call.StaticCallee()) || (target != nil && target != call.Call.StaticCallee()) {
+				pure = false
+				return
+			}
+			target = call.Call.StaticCallee()
+		})
+		if pure && target != nil && target != f {
+			return forwardsErrorList(c, target)
+		}
+	}
 	if calls != 1 || list == nil || res == nil {
 		return "does not call internal.Parse exactly once and use both results"
 	}
